@@ -16,7 +16,9 @@ RULE = ("every path produced by LogicalSegment / request_path / tag_request_path
         "objects encoded again after the caller changed them and under packed-then-padded encoding; symbol names with characters outside ASCII "
         "(structure only: length byte = byte count of the name as sent, pad to even); end to end: routed generic messages and Logix "
         "reads against the reference target on every controller configuration (a Micro800 answers to the empty route only, a failed open() "
-        "is a violation); "
+        "is a violation; every scenario holds an array of structures with a BOOL-array member and reads four `nest_q[i].flags[j]` paths, then closes, "
+        "re-opens the same driver object and reads again - the target reports a Forward Open connection path that holds anything but port segments "
+        "before the message router); "
         "distinct = (constructor, logical type | name-length parity | port, value-width class) evaluated")
 ASSUMPTIONS = [
     "CIP Vol 1 App. C-1.4 segment encodings; logical format 0b10 = 32 bit, 0b11 reserved; pad byte required after 16/32-bit logical headers and odd-length symbols/links",
@@ -358,6 +360,20 @@ def run(ctx):
                         # the value can only be right if the emitted path denoted the addressed element
                         if not tg_ or not r.value_equal(tg_.value)[0]:
                             res.violation("wrong-path:e2e:tag", f"read({r.text!r}) did not return the addressed element's value ({sc.label}): {tg_!r:.120}", {"request": r.text})
+                # a second session of the same driver object: the connection path, the routes and the tag paths it emits are those of the
+                # first one (a path list extended in place during close() shows only now)
+                sc.b.call("close", sc.drv.close)
+                st, out = sc.b.call("open", sc.drv.open)
+                res.ev()
+                if st != "ok" or not out:
+                    res.violation("wrong-path:e2e:reopen", f"open() after close() on the same driver object ({sc.label}) -> {out!r:.160}", {"config": sc.label})
+                else:
+                    for r in [logixreq.gen_request(sc.prj, rng, sc.conn_size) for _ in range(3)]:
+                        st, tg_ = sc.b.call("read", sc.drv.read, r.text)
+                        res.ev()
+                        res.seen("e2e-tag-second-session", r.shape, sc.label)
+                        if st != "ok" or not tg_ or not r.value_equal(tg_.value)[0]:
+                            res.violation("wrong-path:e2e:reopen", f"second session: read({r.text!r}) did not return the addressed element's value ({sc.label}): {tg_!r:.120}", {"request": r.text})
             for pid, key, what, w in sc.b.log.violations:
                 if pid == "C09":
                     res.violation(f"target:{key}", what, {"head": w})
